@@ -988,6 +988,36 @@ def run_pool(prop, tier, seed, out, binp, wd):
     out.coverage["states"] = out.coverage.get("states", 0) + st["distinct"]
     out.coverage["traces_validated_against_impl"] = out.coverage.get("traces_validated_against_impl", 0) + len(scs)
 
+# ------------------------------------------------------------------ (8) sequences with the re-issuing / holdless request flags
+# The lock-family histories of phase (6) stay inside the 'core command subset' of the lock properties.  C13 quantifies over ANY
+# field values: the request flags that re-issue commands or succeed without a hold (unlock-to-wait, reverse-key on timeout /
+# expiry, less-lock-version, keepalive; spec/LockEngineExt.tla is their model, 12.11) are driven through the real LockDB and its
+# executor by engine X; a panic of the real code in such a history of well-formed frames is judged by MonCrash.
+
+def run_extflags(prop, tier, seed, out, binp, wd):
+    import gen_lockext, random as _r
+    quick = tier == "quick"
+    n = 160 if quick else 2500
+    scs = [gen_lockext.random_history(_r.Random(seed * 1000003 + 77000 + i), f"c13x-{seed}-{i}") for i in range(n)] + gen_lockext.directed()
+    scs = [{k: v for k, v in sc.items() if not k.startswith("_")} for sc in scs]
+    res = engine.run_harness(binp, "TestVerifLockExt", scs, os.path.join(wd, "xrun"), tag="c13x", timeout=600 if quick else 2400)
+    traces = []
+    byname = {sc["name"]: sc for sc in scs}
+    for fin, fout, p in res:
+        if p is not None:
+            cv = engine.crash_verdict(prop, binp, "TestVerifLockExt", fin, fout, p, os.path.join(wd, "xrun"), code="engine-panic@process-died", timeout=300)
+            if cv is None:
+                raise InfraError(f"engine X died on {fin}:\n" + (p.stdout or "")[-1500:] + (p.stderr or "")[-1500:])
+            out.viols.append(cv)
+            engine.drop_unfinished(fout)
+        traces.append(fout)
+    viols, mst = engine.monitor_traces("MonCrash", traces, [prop], os.path.join(wd, "xmon"))
+    for v in viols:
+        out.viols.append((v, byname.get(v.get("name"))))
+    out.coverage["extended_flag_sequences"] = {"histories": len(scs), "events": mst["events"], "model": "spec/LockEngineExt.tla", "monitor": "spec/mon/MonCrash.tla",
+                                               "rule": "histories of well-formed LOCK/UNLOCK frames carrying the unlock-to-wait, reverse-key, less-lock-version and keepalive flags, with the executor and virtual-clock sweeps; a panic of the real code is a C13 violation"}
+    out.coverage["evaluations"] = out.coverage.get("evaluations", 0) + len(scs)
+
 def run(prop, tier, seed):
     import gen_core, shutil
     wd = vbuild.scratch(f"vf_{prop}_seq_")
@@ -998,6 +1028,10 @@ def run(prop, tier, seed):
         if only == "ob":
             out = checklib.Outcome(); out.level = "exploration"; out.coverage = {}
             return run_outbuf(prop, tier, seed, out, binp)
+        if only == "xflags":
+            out = checklib.Outcome(); out.level = "exploration"; out.coverage = {}
+            run_extflags(prop, tier, seed, out, binp, wd)
+            return out
         if only == "pool":
             out = checklib.Outcome(); out.level = "exploration"; out.coverage = {}
             run_pool(prop, tier, seed, out, binp, wd)
@@ -1032,6 +1066,7 @@ def run(prop, tier, seed):
                                              "rule": "lock-family histories (wide-range + big populations) of well-formed LOCK/UNLOCK requests with virtual-clock sweeps; a panic of the real code is a C13 violation"}
         out.coverage["evaluations"] = out.coverage.get("evaluations", 0) + len(scs)
         run_pool(prop, tier, seed, out, binp, wd)
+        run_extflags(prop, tier, seed, out, binp, wd)
         return out
     finally:
         shutil.rmtree(wd, ignore_errors=True)
